@@ -169,6 +169,7 @@ def discharge(prelude: List[Any], obligations: List[Any], timeout: float = 10.0,
        (4) for the stubborn ones a portfolio of weakened queries (one prelude axiom dropped).  Slices and weakened
        variants only drop assumptions, so their `unsat` is a valid discharge; `sat` is only believed for the full query."""
     backends = backends or ["z3", "cvc5", "z3-4.8"]
+    jobs = int(os.environ.get("PYVC_JOBS", jobs))
     outdir = os.path.join(CACHE, tag)
     if os.path.isdir(outdir):
         import shutil
